@@ -54,7 +54,7 @@ CLAIMS = {
          "All strings of length <= 3 over a 19-rune escape-relevant alphabet (+ 12 extra runes at length <= 2) in 7 positions, 41 numbers x 8 wrappers, typed nulls, depth-2 containers, a 29-key alphabet (keywords, non-identifiers) singly / in pairs / triples, label lists through NewBlock / AppendNewBlock / SetLabels read back three ways, and all traversals of <= 2-3 steps over 45 steps: generated source must parse, evaluate to the original after conversion to its type, and read back the same traversal steps and labels.",
          "Trusted: go-cty conversion/equality. One recorded finding: Block.Labels() of a constructed label '$${'.",
          "DESIGN.md section 4 C11"),
- 'C12': ("explicit-state search over all writer-API operation sequences up to depth 3/4 from 5 initial files, each history replayed on fresh real hclwrite objects and compared step by step with a map/list reference model",
+ 'C12': ("explicit-state search over all writer-API operation sequences up to depth 3/4 from 9 initial files (incl. caller-side slice mutations), each history replayed on fresh real hclwrite objects and compared step by step with a map/list reference model",
          "53 (thorough 77) operations (SetAttributeValue/Raw/Traversal, Rename/RemoveAttribute, AppendNewBlock, AppendBlock incl. re-appending a removed block, RemoveBlock incl. a foreign block, SetType, SetLabels, AppendNewline, AppendUnstructuredTokens) on the root body and nested bodies, from empty / generated / parsed-with-comments / no-final-newline files: every sequence of length <= 3 (thorough: + all length-4 sequences of the core alphabet). After the operations: no panic, Bytes() parses, parsed structure equals the model, read accessors agree, untouched items keep their tokens and comments. Evidence reports states, transitions and traces.",
          "The reference model (ref/refwriter) never imports hclwrite. One recorded finding: appending into a one-line block. Return values of edit operations that the documentation does not specify are not asserted.",
          "DESIGN.md section 4 C12, Appendix D"),
